@@ -301,8 +301,40 @@ fn v_generate_user_id_relation() {
 }
 
 // ------------------------------------------------------------------------------------------------
-// C08: sign / verify over the random-oracle KMAC model (signature equality <=> transcript equality)
+// C08: what `sign` feeds to the MAC. `Kmac::update/finalize` are stubbed to record the byte stream (ghost
+// state); two keys get the same signature iff they feed the same stream (KMAC being a PRF), so the question
+// "which keys are accepted" becomes "which keys produce the same stream" -- no hashing involved.
 // ------------------------------------------------------------------------------------------------
+static mut GHOST: [u8; 24] = [0; 24];
+static mut GHOST_LEN: usize = 0;
+#[allow(dead_code)]
+fn ghost_update(_k: &mut crate::verif_model::hash::Kmac, input: &[u8]) {
+    unsafe {
+        let n = input.len();
+        assert!(GHOST_LEN + n <= 24);
+        let mut i = 0;
+        while i < n {
+            GHOST[GHOST_LEN + i] = input[i];
+            i += 1;
+        }
+        GHOST_LEN += n;
+    }
+}
+#[allow(dead_code)]
+fn ghost_finalize(_k: crate::verif_model::hash::Kmac, _output: &mut [u8]) {}
+fn ghost_take() -> ([u8; 24], usize) {
+    unsafe {
+        let r = (GHOST, GHOST_LEN);
+        GHOST = [0; 24];
+        GHOST_LEN = 0;
+        r
+    }
+}
+fn same_stream(a: &([u8; 24], usize), b: &([u8; 24], usize)) -> bool {
+    // unused tail bytes are zero in both, so comparing the fixed arrays is exact
+    a.1 == b.1 && u128::from_le_bytes(a.0[..16].try_into().unwrap()) == u128::from_le_bytes(b.0[..16].try_into().unwrap())
+        && u64::from_le_bytes(a.0[16..].try_into().unwrap()) == u64::from_le_bytes(b.0[16..].try_into().unwrap())
+}
 fn signing_msk() -> MasterSecretKey {
     let t = scalar_nz();
     let mut tracers = LinkedList::new();
@@ -322,61 +354,61 @@ fn el() -> u8 {
     kani::assume((v as u16) < crate::verif_model::toy_group::P);
     v
 }
+fn uid(a0: u8) -> UserId {
+    let mut id = LinkedList::new();
+    id.push_back(ToyScalar::new(a0));
+    UserId(id)
+}
 
-/// F-verify: the signature of an issued key verifies; changing a marker, the secret or the name of the right
-/// (same shape) or any byte of the signature makes verification fail.
+/// F-inj (values): same arrangement (1 marker, 1 right with a 1-byte name, chain of 2), different values
+/// (marker, name, either secret, or the two secrets swapped) => different MAC input.
 #[kani::proof]
 #[kani::unwind(4)]
 #[kani::stub(zeroize::optimization_barrier, nop_barrier)]
 #[kani::stub(alloc::fmt::format, no_format)]
+#[kani::stub(<crate::verif_model::hash::Kmac as crate::verif_model::hash::Hasher>::update, ghost_update)]
+#[kani::stub(<crate::verif_model::hash::Kmac as crate::verif_model::hash::Hasher>::finalize, ghost_finalize)]
 fn f_verify_detects_value_changes() {
     let msk = signing_msk();
-    let (a0, k1, n) = (el(), el(), kani::any::<u8>());
-    let mut id = LinkedList::new();
-    id.push_back(ToyScalar::new(a0));
-    let mut secrets = RevisionVec::new();
-    secrets.create_chain_with_single_value(Right(vec![n]), cl(k1));
-    let id = UserId(id);
-    let sig = sign(&msk, &id, &secrets).unwrap();
-    assert!(sig.is_some());
-    // same shape, at least one value changed (symbolic which), or one signature byte flipped
-    let (b0, l1, m) = (el(), el(), kani::any::<u8>());
-    let flip: bool = kani::any();
-    let pos: usize = kani::any();
-    kani::assume(pos < SIGNATURE_LENGTH);
-    let mut presented = sig.unwrap();
-    if flip {
-        presented[pos] ^= 1;
-    } else {
-        kani::assume(b0 != a0 || l1 != k1 || m != n);
-    }
-    let mut id2 = LinkedList::new();
-    id2.push_back(ToyScalar::new(if flip { a0 } else { b0 }));
-    let mut secrets2 = RevisionVec::new();
-    secrets2.create_chain_with_single_value(Right(vec![if flip { n } else { m }]), cl(if flip { k1 } else { l1 }));
-    let forged = UserSecretKey { id: UserId(id2), ps: Vec::new(), secrets: secrets2, signature: Some(presented) };
-    kani::cover!(!flip && b0 == a0 && l1 == k1, "only the right's name differs");
-    kani::cover!(flip, "signature byte flipped");
-    assert!(verify(&msk, &forged).is_err(), "a key with altered content or signature passed the integrity check");
-    std::mem::forget(forged);
-    std::mem::forget(secrets);
-    std::mem::forget(id);
+    let (a0, k1, k2, n) = (el(), el(), el(), kani::any::<u8>());
+    let (b0, l1, l2, m) = (el(), el(), el(), kani::any::<u8>());
+    kani::assume(b0 != a0 || l1 != k1 || l2 != k2 || m != n);
+    let mk = |k1: u8, k2: u8, n: u8| {
+        let mut chain = LinkedList::new();
+        chain.push_back(cl(k1));
+        chain.push_back(cl(k2));
+        let mut secrets = RevisionVec::new();
+        secrets.insert_new_chain(Right(vec![n]), chain);
+        secrets
+    };
+    let (ia, sa) = (uid(a0), mk(k1, k2, n));
+    let r = sign(&msk, &ia, &sa).unwrap();
+    assert!(r.is_some(), "a master key with a signing key signs");
+    let stream_a = ghost_take();
+    let (ib, sb) = (uid(b0), mk(l1, l2, m));
+    let _ = sign(&msk, &ib, &sb).unwrap();
+    let stream_b = ghost_take();
+    kani::cover!(b0 == a0 && l1 == k1 && l2 == k2, "only the right's name differs");
+    kani::cover!(l1 == k2 && l2 == k1 && k1 != k2, "secrets swapped inside the chain");
+    assert!(stream_a.1 == 5, "MAC input = marker, name, flavourless secrets");
+    assert!(!same_stream(&stream_a, &stream_b), "two keys with different contents feed the same bytes to the MAC");
+    std::mem::forget(sa);
+    std::mem::forget(sb);
     std::mem::forget(msk);
 }
 
-/// F-inj (re-framing): two keys with DIFFERENT arrangements of the same bytes must not share a signature.
-/// Arrangement A: one right `n` with the chain [k1, k2]. Arrangement B: right `n` with [k1] and the empty
-/// right with [k2]. (The MAC input is the plain concatenation of names and secrets.)
+/// F-inj (re-framing): {n:[k1,k2]} and {n:[k1], "":[k2]} are different arrangements and must feed different
+/// byte streams to the MAC. (The MAC input has no length framing of names and chains.)
 #[kani::proof]
 #[kani::unwind(4)]
 #[kani::stub(zeroize::optimization_barrier, nop_barrier)]
 #[kani::stub(alloc::fmt::format, no_format)]
+#[kani::stub(<crate::verif_model::hash::Kmac as crate::verif_model::hash::Hasher>::update, ghost_update)]
+#[kani::stub(<crate::verif_model::hash::Kmac as crate::verif_model::hash::Hasher>::finalize, ghost_finalize)]
 fn f_sign_reframing_chain_split() {
     let msk = signing_msk();
     let (a0, k1, k2, n) = (el(), el(), el(), kani::any::<u8>());
-    let mut id = LinkedList::new();
-    id.push_back(ToyScalar::new(a0));
-    let id = UserId(id);
+    let id = uid(a0);
     let mut chain = LinkedList::new();
     chain.push_back(cl(k1));
     chain.push_back(cl(k2));
@@ -385,41 +417,42 @@ fn f_sign_reframing_chain_split() {
     let mut b = RevisionVec::new();
     b.create_chain_with_single_value(Right(vec![n]), cl(k1));
     b.create_chain_with_single_value(Right(vec![]), cl(k2));
-    let sa = sign(&msk, &id, &a).unwrap().unwrap();
-    let sb = sign(&msk, &id, &b).unwrap().unwrap();
+    let _ = sign(&msk, &id, &a).unwrap();
+    let sa = ghost_take();
+    let _ = sign(&msk, &id, &b).unwrap();
+    let sb = ghost_take();
     kani::cover!(true, "both signed");
-    assert!(sa != sb, "two different arrangements of rights and secrets share one signature (no length framing in the MAC input)");
+    assert!(!same_stream(&sa, &sb), "two different arrangements of rights and secrets feed the same bytes to the MAC (no length framing)");
     std::mem::forget(a);
     std::mem::forget(b);
     std::mem::forget(msk);
 }
 
-/// F-inj (re-framing 2): bytes shifted between a right's name and the next field.
-/// A: rights [n0] -> [k1] ; B: rights [n0, k1's serialization as part of the name] cannot be built with scalars
-/// (names are bytes, secrets are flagged scalars), so the second probe moves a whole right: A = {n:[k1], m:[k2]}
-/// vs B = {n:[k1], m:[k2]} in the other order -- order is part of the arrangement and must change the signature.
+/// F-inj (order): reordering the rights of a key changes the MAC input.
 #[kani::proof]
 #[kani::unwind(4)]
 #[kani::stub(zeroize::optimization_barrier, nop_barrier)]
 #[kani::stub(alloc::fmt::format, no_format)]
+#[kani::stub(<crate::verif_model::hash::Kmac as crate::verif_model::hash::Hasher>::update, ghost_update)]
+#[kani::stub(<crate::verif_model::hash::Kmac as crate::verif_model::hash::Hasher>::finalize, ghost_finalize)]
 fn f_sign_order_matters() {
     let msk = signing_msk();
     let (a0, k1, k2) = (el(), el(), el());
     let (n, m) = (kani::any::<u8>(), kani::any::<u8>());
     kani::assume(n != m || k1 != k2);
-    let mut id = LinkedList::new();
-    id.push_back(ToyScalar::new(a0));
-    let id = UserId(id);
+    let id = uid(a0);
     let mut a = RevisionVec::new();
     a.create_chain_with_single_value(Right(vec![n]), cl(k1));
     a.create_chain_with_single_value(Right(vec![m]), cl(k2));
     let mut b = RevisionVec::new();
     b.create_chain_with_single_value(Right(vec![m]), cl(k2));
     b.create_chain_with_single_value(Right(vec![n]), cl(k1));
-    let sa = sign(&msk, &id, &a).unwrap().unwrap();
-    let sb = sign(&msk, &id, &b).unwrap().unwrap();
+    let _ = sign(&msk, &id, &a).unwrap();
+    let sa = ghost_take();
+    let _ = sign(&msk, &id, &b).unwrap();
+    let sb = ghost_take();
     kani::cover!(true, "both signed");
-    assert!(sa != sb, "reordering the rights of a key does not change its signature");
+    assert!(!same_stream(&sa, &sb), "reordering the rights of a key does not change the MAC input");
     std::mem::forget(a);
     std::mem::forget(b);
     std::mem::forget(msk);
